@@ -1,3 +1,5 @@
+//go:build verif_c03
+
 package main
 
 // C03 — cell storage is a last-writer-wins map over the grid.
